@@ -3,6 +3,7 @@ package diff
 import (
 	"fmt"
 	"reflect"
+	"sort"
 	"strings"
 
 	"github.com/go-openapi/spec"
@@ -65,6 +66,11 @@ func (sd *SpecAnalyser) Analyse(spec1, spec2 *spec.Swagger) error {
 	sd.analyseResponseParams()
 	sd.analyseExtensions(spec1, spec2)
 	sd.AnalyseDefinitions()
+
+	// the loops above range over maps: give the result a stable order
+	sort.SliceStable(sd.Diffs, func(i, j int) bool {
+		return sd.Diffs[i].String() < sd.Diffs[j].String()
+	})
 
 	return nil
 }
@@ -135,8 +141,13 @@ func (sd *SpecAnalyser) AnalyseDefinitions() {
 		alreadyReferenced[k] = true
 	}
 	location := DifferenceLocation{Node: &Node{Field: "Spec Definitions"}}
-	for name1, sch := range sd.Definitions1 {
-		schema1 := sch
+	names1 := make([]string, 0, len(sd.Definitions1))
+	for name1 := range sd.Definitions1 {
+		names1 = append(names1, name1)
+	}
+	sort.Strings(names1)
+	for _, name1 := range names1 {
+		schema1 := sd.Definitions1[name1]
 		if _, ok := alreadyReferenced[name1]; !ok {
 			childLocation := location.AddNode(&Node{Field: name1})
 			if schema2, ok := sd.Definitions2[name1]; ok {
@@ -243,8 +254,14 @@ func (sd *SpecAnalyser) analyseResponseParams() {
 					sd.Diffs = sd.Diffs.addDiff(SpecDifference{DifferenceLocation: location, Code: DeletedResponse})
 				}
 			}
-			// Added updated Response Codes
-			for code2, op2Response := range op2Responses {
+			// Added updated Response Codes (in code order: comparing $ref'd bodies has side effects)
+			codes2 := make([]int, 0, len(op2Responses))
+			for code2 := range op2Responses {
+				codes2 = append(codes2, code2)
+			}
+			sort.Ints(codes2)
+			for _, code2 := range codes2 {
+				op2Response := op2Responses[code2]
 				if op1Response, ok := op1Responses[code2]; ok {
 					op1Headers := op1Response.ResponseProps.Headers
 					headerRootNode := getNameOnlyDiffNode("Headers")
